@@ -301,7 +301,11 @@ static void send_shutdown_response(const struct peer *p,
 	}
 }
 
-static void clear_routing_entry(struct value_route_table *val)
+/**
+ * @param leaving_peer The peer that is shutting down. It is never notified because
+ * its connection might already be gone.
+ */
+static void clear_routing_entry(struct value_route_table *val, const struct peer *leaving_peer)
 {
 	struct routing_request *request = val->vals[0];
 
@@ -309,7 +313,11 @@ static void clear_routing_entry(struct value_route_table *val)
 		log_peer_err(request->requesting_peer, "Could not cancel request timer when clearing routing entry!\n");
 	}
 
-	send_shutdown_response(request->requesting_peer, request->origin_request_id);
+	cjet_timer_destroy(&request->timer);
+	if (request->requesting_peer != leaving_peer) {
+		send_shutdown_response(request->requesting_peer, request->origin_request_id);
+	}
+
 	cJSON_Delete(request->origin_request_id);
 	cjet_free(request);
 }
@@ -321,13 +329,15 @@ void remove_peer_from_routing_table(const struct peer *p,
 	for (unsigned int i = 0; i < table_size_route_table; ++i) {
 		struct hashtable_string *entry = &(table[i]);
 		if (entry->key != (char *)HASHTABLE_INVALIDENTRY) {
+			const struct routing_request *request = entry->value.vals[0];
+			if (request->requesting_peer != peer_to_remove) {
+				continue;
+			}
+
 			struct value_route_table val;
 			int ret = HASHTABLE_REMOVE(route_table, p->routing_table, entry->key, &val);
 			if (ret == HASHTABLE_SUCCESS) {
-				struct routing_request *request = val.vals[0];
-				if (likely(request->requesting_peer == peer_to_remove)) {
-					clear_routing_entry(&val);
-				}
+				clear_routing_entry(&val, peer_to_remove);
 			}
 		}
 	}
@@ -343,7 +353,7 @@ void remove_routing_info_from_peer(const struct peer *p)
 			int ret = HASHTABLE_REMOVE(route_table,
 			                           p->routing_table, entry->key, &val);
 			if (ret == HASHTABLE_SUCCESS) {
-				clear_routing_entry(&val);
+				clear_routing_entry(&val, p);
 			}
 		}
 	}
